@@ -52,7 +52,8 @@ Proof. exact propagation_only_between_pupil_and_image. Qed.
 Print Assumptions C08_propagation_only_between_pupil_and_image.
 
 (* (b) UNBOUNDED: for every start state and every program (any length) over every plane type,
-   every public plane class except Rotate/Flip, and both propagation routines, the trace of
+   every public plane class (with its default ptype and with every ptype its constructor
+   accepts) except Rotate/Flip, and both propagation routines, the trace of
    results / exceptions of the implementation's transition function is the documented one *)
 Theorem C08_programs_follow_doc : forall s ops,
   forallb op_claimed ops = true -> run_program observed s ops = run_program documented s ops.
@@ -73,6 +74,12 @@ Theorem C08_untilted_program_types_follow_tables : forall ops s,
 Proof. exact untilted_program_types_follow_tables. Qed.
 Print Assumptions C08_untilted_program_types_follow_tables.
 
+(* a class constructed with the documented ptype override carries that ptype; [programs_follow_doc]
+   enters the multiplication table with it (Model/PTypeSpec.v:eff_ptype) *)
+Theorem C08_ptype_override_is_honoured : forall k p q, observed_override_ptype k p = Some q -> q = p.
+Proof. exact ptype_override_is_honoured. Qed.
+Print Assumptions C08_ptype_override_is_honoured.
+
 (* a refused step - of ANY kind, Rotate and Flip included - leaves the wavefront in its state *)
 Theorem C08_refused_step_keeps_state : forall s (o : op cls) e k,
   step observed s o = Raises e k -> k = s.
@@ -87,7 +94,7 @@ Definition C08_documented_classes_apply_full : Prop :=
     observed_class_ptype k = p /\
     (exists w, doc_mul w p <> None) /\
     (forall w t b clip, doc_mul w p = Some t ->
-       exists b', observed_class_mul k clip (St w b) = Yields (St t b')).
+       exists b', observed_class_mul k None clip (St w b) = Yields (St t b')).
 
 (* proved for all documented classes but Rotate and Flip *)
 Theorem C08_documented_classes_apply_partial : forall k p,
@@ -95,7 +102,7 @@ Theorem C08_documented_classes_apply_partial : forall k p,
     observed_class_ptype k = p /\
     (exists w, doc_mul w p <> None) /\
     (forall w t b clip, doc_mul w p = Some t ->
-       exists b', observed_class_mul k clip (St w b) = Yields (St t b')).
+       exists b', observed_class_mul k None clip (St w b) = Yields (St t b')).
 Proof. exact documented_classes_apply_partial. Qed.
 Print Assumptions C08_documented_classes_apply_partial.
 
@@ -106,7 +113,7 @@ Print Assumptions C08_documented_classes_apply_refuted.
 
 Theorem C08_rotate_flip_refuted : forall k, known_broken k = true ->
   doc_class_ptype k = Some PTransform /\ observed_class_ptype k = PNone /\
-  forall clip s, observed_class_mul k clip s = Raises EAttributeError s.
+  forall clip s, observed_class_mul k None clip s = Raises EAttributeError s.
 Proof. exact rotate_flip_refuted. Qed.
 Print Assumptions C08_rotate_flip_refuted.
 
@@ -119,10 +126,11 @@ Print Assumptions C08_programs_with_rotate_refuted.
    propagation routines, a second wavefront and a wavefront that lost all its light (types only:
    the content is implementation-defined) *)
 Example C08_nonvacuous :
-  let prog := [MulClass KPupil false; MulType PImage false; Propagate Fft; MulClass KTilt false;
-               Propagate Dft; MulClass KImage false; MulType PTransform false; Propagate Dft;
-               MulClass KPlane false; Fresh (St WNone Plain); MulClass KPupil false;
-               MulClass KPupil true; Propagate Dft; MulClass KImage false; MulClass KPupil false] in
+  let prog := [MulClass KPupil None false; MulType PImage false; Propagate Fft; MulClass KTilt None false;
+               Propagate Dft; MulClass KImage None false; MulType PTransform false; Propagate Dft;
+               MulClass KPlane None false; Fresh (St WNone Plain); MulClass KTilt (Some PPupil) false;
+               MulClass KPupil None true; Propagate Dft; MulClass KImage None false;
+               MulClass KDispersiveTilt (Some PPupil) false] in
   forallb op_claimed prog = true /\
   map erase (run_program observed (St WNone Plain) prog) =
     [TYields WPupil; TRaises ETypeError WPupil; TYields WImage; TYields WImage; TYields WPupil;
